@@ -23,7 +23,7 @@ def run(c):
     drv = c.driver(DRIVER)
     binary = c.go_build(HARNESS)
     if binary and drv:
-        rc, out = c.go_run(binary, [f"-n={c.n(3000, 120000)}"])
+        rc, out = c.go_run(binary, [f"-n={c.n(3000, 200000)}"])
         c.harness_ok(rc, out, "verif-c25")
         c.correspond(out, drv)
 
@@ -48,7 +48,7 @@ META = {
              "the visible key in the requested direction; per function the selected rows across LODs are the first `limit` window rows and "
              "has-more is exact. Old-code variants are refuted by `decide` witnesses. The model is tied to /repo by replaying each generated "
              "request on the real limitQueries/getTableFromLODs (stub loadPoints) and on the compiled model and diffing rows, NaN pattern and flag."),
-    "note": ("Trusted: Lean kernel; model<->code correspondence on generated requests (quick 3000, thorough 120000); getHandlerWhat, value(), "
+    "note": ("Trusted: Lean kernel; model<->code correspondence on generated requests (quick 3000, thorough 200000); getHandlerWhat, value(), "
              "sort.Sort and Go maps are inputs/trusted. The unchanged tree violates the property (window rows skipped, spurious has-more, "
              "NaN padding per handler-what, shared row-marker tags, index panic for >7 columns): see fixes/C25-*.diff; the model is the fixed code."),
     "design_ref": "DESIGN.md §6 C25",
